@@ -120,12 +120,15 @@ def audit_instance(ctx, rng, inst, settings, direction=None):
     for x in pts:
         ex = np.exp(alpha @ np.asarray(x))
         scale = float(np.max(np.abs(c) * ex)) + 1.0
+        # the solver's absolute error on every coefficient (about 1e-6 here) is multiplied by e^{alpha.x}: a point where some
+        # exponential is huge cannot be judged with a tolerance that ignores that factor
+        noise = 1e-5 * float(np.sum(ex))
         if m > 1 and len(con._nus) > 0:
             for i, a in ages.items():
-                if float(a @ ex) < -100 * tol * scale:
+                if float(a @ ex) < -100 * tol * scale - noise:
                     return 'AGE function %d is %.3e < 0 at the point %s of X' % (i, float(a @ ex), x)
         fx = float(c @ ex)
-        if fx < -100 * tol * scale:
+        if fx < -100 * tol * scale - noise:
             return 'the certified signomial takes the value %.3e < 0 at the point %s of X (c = %s)' % (fx, x, c.tolist())
     return None
 
